@@ -33,7 +33,7 @@ Proof.
 Qed.
 
 (* ---------------- actor level (kernel model MV.Kernel.Model) ---------------- *)
-From MV Require Import Kernel.Model Kernel.Conservation.
+From MV Require Import Kernel.Model Kernel.Queue Kernel.Conservation.
 
 (* Conservation of user messages, for every table of scripted roles, every run of the kernel from the
    freshly started system and every message serial: the number of sends (counted per receiver, for receivers
@@ -60,6 +60,27 @@ Proof.
   eexists. eexists. reflexivity.
 Qed.
 Print Assumptions C02_send_total.
+
+(* Order ("messages from one sender to one receiver are handled in the order they were sent"): mailbox discipline.
+   seq(a) = the in-flight user message of an actor object, if any, followed by its user queue. For every role table,
+   from ANY state, one step changes seq of every object only by taking its head — exactly when the step runs that
+   object's own in-flight user message — and by appending at the tail: nothing is inserted ahead of or between queued
+   messages, taken from the middle or reordered (failure, suspension, restart and termination included: the queue of
+   a restarting or suspended actor is kept as it is). *)
+Theorem C02_kernel_mailbox_order_step : forall roles s l s' o,
+  kstep roles s l = Some (s', o) ->
+  forall v a, get s v = Some a -> exists a' app, get s' v = Some a' /\
+    seq a' = (if consumes l v a then tl (seq a) else seq a) ++ app.
+Proof. exact kstep_queue. Qed.
+Print Assumptions C02_kernel_mailbox_order_step.
+
+(* over every run: what an actor has queued is, later, what is left of it after some heads were taken, followed by
+   what was appended since — queued messages keep their relative order and newcomers are behind them *)
+Theorem C02_kernel_mailbox_order_run : forall roles ls s s' os,
+  krun roles s ls = Some (s', os) ->
+  forall v a, get s v = Some a -> exists a' k app, get s' v = Some a' /\ seq a' = skipn k (seq a) ++ app.
+Proof. intros roles ls. exact (krun_queue roles ls). Qed.
+Print Assumptions C02_kernel_mailbox_order_run.
 
 Example C02_kernel_example :
   (* a message to an address that never existed becomes exactly one dead letter *)
